@@ -156,19 +156,23 @@ func (dd *Document) addMethod(service *client_j5pb.Service, method *client_j5pb.
 		}
 	}
 
-	responseSchema, err := convertObjectItem(method.ResponseBody)
-	if err != nil {
-		return fmt.Errorf("response body: %w", err)
-	}
-	operation.Responses = &ResponseSet{{
+	okResponse := Response{
 		Code:        200,
 		Description: "OK",
-		Content: OperationContent{
+	}
+	// methods which return a raw HTTP body have no response schema
+	if method.ResponseBody != nil {
+		responseSchema, err := convertObjectItem(method.ResponseBody)
+		if err != nil {
+			return fmt.Errorf("response body: %w", err)
+		}
+		okResponse.Content = OperationContent{
 			JSON: &OperationSchema{
 				Schema: responseSchema,
 			},
-		},
-	}}
+		}
+	}
+	operation.Responses = &ResponseSet{okResponse}
 
 	found := false
 	for _, pathItem := range dd.Paths {
